@@ -36,6 +36,7 @@ MAC = {1: 21, 2: 22, 3: 23}              # abstract router address -> MAC on the
 NODE_MAC, PROBE_MAC, SADR_MAC, SENDER_MAC = 1, 5, 9, 99
 SN_INV = {v: k for k, v in SN.items()}
 DN_INV = {v: k for k, v in DN.items()}
+TRANSIT_MAC = 77                         # a station on the node's first network whose packets the node forwards
 MAC_INV = {v: k for k, v in MAC.items()}
 FOREIGN = 1000                            # anything that is not the image of an abstract value
 
@@ -188,14 +189,16 @@ class NodeRig:
     def run(self):
         vt.step_all(limit=10000)
 
-    def send(self, lan, a, npdu, dest=None, sadr=None):
+    def send(self, lan, a, npdu, dest=None, sadr=None, dadr=None, src_mac=None):
         x = NPDU()
         npdu.encode(x)
         if sadr is not None:
             x.npduSADR = sadr
+        if dadr is not None:
+            x.npduDADR, x.npduHopCount = dadr, 255
         p = PDU()
         x.encode(p)
-        p.pduSource = Address(MAC[a])
+        p.pduSource = Address(MAC[a] if src_mac is None else src_mac)
         p.pduDestination = dest or LocalBroadcast()
         lan.sender.request(p)
         self.run()
@@ -265,16 +268,46 @@ class NodeRig:
                 self.nsap.pending_nets.clear()        # un-park the probe: the next probe starts from scratch
             out.append(ems)
         del self.log[:]
+        self.transit = self.probe_transit()
         return out
+
+    def probe_transit(self):
+        """a node with two ports is a router: one packet of a station on the first port for a station on every destination
+        network, handed to the node for forwarding -- where does it send it on?"""
+        if len(self.lans) != 2:
+            return {"tin": 0, "em": []}
+        lan = self.lans[0]
+        tin = abs_int(SN_INV, lan.adapter.adapterNet)
+        out = []
+        for d in sorted(DN):
+            del self.log[:]
+            ap = WhoIsRequest()
+            ap.pduDestination = LocalStation(bytes([NODE_MAC]))
+            x = APDU()
+            ap.encode(x)
+            ems = []
+            try:
+                self.send(lan, 0, x, dest=Address(NODE_MAC), dadr=RemoteStation(DN[d], PROBE_MAC), src_mac=TRANSIT_MAC)
+            except Exception:
+                ems.append(["raised", 0, 0])
+            for l2, pdu in self.log:
+                c = self.classify(l2, pdu, d, transit=True)
+                if c[0] != "echo":
+                    ems.append(c)
+            out.append(ems)
+        del self.log[:]
+        return {"tin": tin, "em": out}
 
     def parked(self):
         """per destination network: was an earlier packet for it still parked when the last probe was sent"""
         return self.was_parked
 
-    def classify(self, lan, pdu, d):
+    def classify(self, lan, pdu, d, transit=False):
         s = abs_int(SN_INV, lan.adapter.adapterNet)
         other = ["other", s, 0]
         try:
+            if transit and pdu.pduSource == Address(TRANSIT_MAC):
+                return ["echo", s, 0]               # the injected frame itself on the traffic log
             if pdu.pduSource != Address(NODE_MAC):
                 return other
             n = NPDU()
@@ -282,7 +315,7 @@ class NodeRig:
             bcast = pdu.pduDestination.addrType == Address.localBroadcastAddr
             if n.npduNetMessage is None:
                 if (n.npduDADR is not None and n.npduDADR.addrType == Address.remoteStationAddr and n.npduDADR.addrNet == DN[d]
-                        and n.npduDADR.addrAddr == bytes([PROBE_MAC]) and not n.npduSADR and not bcast):
+                        and n.npduDADR.addrAddr == bytes([PROBE_MAC]) and bool(n.npduSADR) == transit and not bcast):
                     return ["data", s, abs_addr(pdu.pduDestination)]
                 return other
             if n.npduNetMessage == 0 and bcast and not n.npduDADR:
@@ -315,12 +348,13 @@ def record(rigcls, attached0, ops):
                 ev["probe"] = rig.probe()
                 ev["parked"] = rig.parked()
                 ev["pk"] = rig.pk
+                ev["tr"] = getattr(rig, "transit", None) or {"tin": 0, "em": []}
                 ev.setdefault("via", "")
                 evs.append(ev)
     except Hang:
         HANGS[0] += 1
         last = evs[-1]["st"] if evs else {"routers": [], "path": [], "attached": list(attached0)}
-        evs.append(dict(ops[len(evs)], exc="Hang", st=last, probe=[], parked=[], via="", pk=CacheRig.pk, hang=True))
+        evs.append(dict(ops[len(evs)], exc="Hang", st=last, probe=[], parked=[], via="", pk=CacheRig.pk, tr={"tin": 0, "em": []}, hang=True))
     return evs
 
 
@@ -524,7 +558,7 @@ def tlc_validate(chk, traces, label):
         tf = os.path.join(wd, "traces.ndjson")
         with open(tf, "w") as f:
             for t in chunk:
-                evs = [{k: e[k] for k in ("op", "s", "a", "ds", "x", "exc", "st", "probe", "parked", "via", "pk")} for e in t["evs"]]
+                evs = [{k: e[k] for k in ("op", "s", "a", "ds", "x", "exc", "st", "probe", "parked", "via", "pk", "tr")} for e in t["evs"]]
                 f.write(json.dumps({"tid": t["tid"], "attached0": t["attached0"], "evs": evs}, separators=(",", ":")) + "\n")
         defs, consts, _ = mc_cfg(TRACE_CFG, 0, empty=True)
         files, cfg = tlc.mc_wrapper("TRgen_rc", "Trace_RouteCache", defs, ["SPECIFICATION TSpec", "CHECK_DEADLOCK FALSE"], consts)
